@@ -6,6 +6,7 @@ import Model.C14.Multipath
 import Model.C14.Derive
 import Model.C14.Musig
 import Model.C14.Wallet
+import Model.C14.CoreImport
 import Model.C07.Instance
 import Model.Common.Sha256
 import Generated.Descsum
@@ -152,6 +153,60 @@ def items? (s : String) : Option (List (Int × String × List Char)) :=
     match e.splitOn "@" with
     | [b, net, t] => do pure ((← b.toInt?), net, (← cps? t))
     | _ => none
+
+/-! decoded JSON values on the line: `N` null, `T`/`F`, `I<int>;`, `W<int>;` whole float, `X` other float,
+    `S<code points separated by .>;` string, `A…]` array, `O<S…;><value>…}` object. -/
+open CoreImport in
+def takeUntil (stop : Char) : List Char → List Char → Option (List Char × List Char)
+  | _, [] => none
+  | acc, c :: cs => if c == stop then some (acc.reverse, cs) else takeUntil stop (c :: acc) cs
+
+def cpsDot? (l : List Char) : Option (List Char) :=
+  if l.isEmpty then some [] else ((String.ofList l).splitOn ".").mapM fun t => t.toNat?.map Char.ofNat
+
+open CoreImport in
+mutual
+def parseJ : Nat → List Char → Option (J × List Char)
+  | 0, _ => none
+  | _ + 1, 'N' :: r => some (.null, r)
+  | _ + 1, 'T' :: r => some (.bool true, r)
+  | _ + 1, 'F' :: r => some (.bool false, r)
+  | _ + 1, 'X' :: r => some (.float none, r)
+  | _ + 1, 'I' :: r => do let (t, r) ← takeUntil ';' [] r; pure (.int (← (String.ofList t).toInt?), r)
+  | _ + 1, 'W' :: r => do let (t, r) ← takeUntil ';' [] r; pure (.float (some (← (String.ofList t).toInt?)), r)
+  | _ + 1, 'S' :: r => do let (t, r) ← takeUntil ';' [] r; pure (.str (← cpsDot? t), r)
+  | f + 1, 'A' :: r => do let (l, r) ← parseJs f r; pure (.arr l, r)
+  | f + 1, 'O' :: r => do let (l, r) ← parseKVs f r; pure (.obj l, r)
+  | _ + 1, _ => none
+def parseJs : Nat → List Char → Option (List J × List Char)
+  | 0, _ => none
+  | _ + 1, ']' :: r => some ([], r)
+  | f + 1, r => do let (v, r) ← parseJ f r; let (vs, r) ← parseJs f r; pure (v :: vs, r)
+def parseKVs : Nat → List Char → Option (List (List Char × J) × List Char)
+  | 0, _ => none
+  | _ + 1, '}' :: r => some ([], r)
+  | f + 1, 'S' :: r => do
+    let (t, r) ← takeUntil ';' [] r
+    let k ← cpsDot? t
+    let (v, r) ← parseJ f r
+    let (kvs, r) ← parseKVs f r
+    pure ((k, v) :: kvs, r)
+  | _ + 1, _ => none
+end
+
+def json? (s : String) : Option CoreImport.J :=
+  match parseJ (s.length + 1) s.toList with
+  | some (v, []) => some v
+  | _ => none
+
+def jerrOut : CoreImport.JErr → String
+  | .value => "err value" | .type => "err type" | .runtime => "err runtime"
+
+def range? (s : String) : Option (Option CoreImport.Range) :=
+  if s == "-" then some none else
+  match s.splitOn "," with
+  | [a, b] => do pure (some ((← a.toInt?), (← b.toInt?)))
+  | _ => none
 
 def posOut : Option (Option (Nat × Nat)) → String
   | some (some (b, i)) => s!"ok {b} {i}"
@@ -304,6 +359,32 @@ def handle : List String → String
            | none => s!"ok {labels} err")
       | none => "unsupported"
     | _, _, _, _, _ => "bad-op"
+  | ["core.watched", d, reply] =>
+    match cps? d, json? reply with
+    | some d, some j =>
+      (match CoreImport.watchedRangeJ d j with
+       | .ok none => "ok None"
+       | .ok (some (a, b)) => s!"ok {a} {b}"
+       | .error e => jerrOut e)
+    | _, _ => "bad-op"
+  | ["core.imported", rq, an] =>
+    match json? rq, json? an with
+    | some rq, some an => (match CoreImport.assertImportedJ rq an with | .ok _ => "ok" | .error e => jerrOut e)
+    | _, _ => "bad-op"
+  | ["core.widen", wanted, watched] =>
+    match range? wanted, range? watched with
+    | some (some w), some wd =>
+      (match CoreImport.widenedRange w wd with | some (a, b) => s!"ok {a} {b}" | none => "err value")
+    | _, _ => "bad-op"
+  | ["core.request", ranged, active, internal, label, kr, next] =>
+    match bool? ranged, bool? active, bool? internal, bool? label, range? kr, (if next == "-" then some none else next.toInt?.map some) with
+    | some rg, some ac, some it, some lb, some kr, some nx =>
+      if CoreImport.importRequestOk rg ac it lb kr nx then "ok" else "err value"
+    | _, _, _, _, _, _ => "bad-op"
+  | ["core.comparable", t] =>
+    match cps? t with
+    | some t => "ok " ++ cpsOut (CoreImport.comparable t)
+    | none => "bad-op"
   | ["scan.index", ranged, last, query, rows] =>
     match bool? ranged, last.toNat?, query.toNat?, rows? rows with
     | some rg, some last, some q, some rows =>
